@@ -8,11 +8,13 @@ Definition d_op (s : sexp) : str + unit :=
   | _ => inr tt
   end.
 
-(* 1: wrap(s, width, indent)   2: run of write$/newline$ operations *)
+(* 1: wrap(s, width, indent)   2: run of write$/newline$ operations   3: history of wrap calls *)
 Definition dispatch (fn : Z) (a : sexp) : sexp :=
   match fn with
   | 1%Z => e_res e_str (wrap (d_str (d_nth a 0)) (d_nat (d_nth a 1)) (d_str (d_nth a 2)))
   | 2%Z => e_res e_str (run_output (d_list d_op a) [] [])
+  (* 3: a history of wrap calls in one process; the model is a function, so every call is answered on its own *)
+  | 3%Z => L (map (fun c => e_res e_str (wrap (d_str (d_nth c 0)) (d_nat (d_nth c 1)) (d_str (d_nth c 2)))) (d_items a))
   | _ => L []
   end.
 
